@@ -14,4 +14,12 @@ PD == (0 :> O("put", 5, 1)) @@ (1 :> O("rem", 10, 0)) @@ (2 :> O("get", 6, 0))
 PE == (0 :> O("put", 13, 1)) @@ (1 :> O("rem", 2, 0)) @@ (2 :> O("get", 10, 0))
 \* f: two readers and the splitter only (no remover): larger reader state
 PF == (0 :> O("put", 11, 1)) @@ (1 :> O("get", 12, 0)) @@ (2 :> O("get", 14, 0))
+\* g: full scan (collecting node versions) vs an insert that splits B2 under the scanner, and a reader
+PG == (0 :> O("put", 13, 1)) @@ (1 :> O("scan", 0, 0)) @@ (2 :> O("get", 13, 0))
+\* h: full scan vs split of B2 and removal of B1's last key (collapse / new root under the scanner)
+PH == (0 :> O("put", 13, 1)) @@ (1 :> O("scan", 0, 0)) @@ (2 :> O("rem", 2, 0))
+\* i: full scan vs a plain insert into B1 (not full) and a remove in B2
+PI == (0 :> O("put", 4, 1)) @@ (1 :> O("scan", 0, 0)) @@ (2 :> O("rem", 12, 0))
+\* j: full scan vs split of the LEFT border (B3 appears between the border under the scanner and its old next) and removal of B2's last key
+PJ == (0 :> O("put", 5, 1)) @@ (1 :> O("scan", 0, 0)) @@ (2 :> O("rem", 10, 0))
 ====
